@@ -217,6 +217,16 @@ def elf_hash(name):
     return h
 
 
+def _memo(fn):
+    def wrapper(self, *args):
+        key = (fn.__name__,) + args
+        if key not in self._cache:
+            self._cache[key] = fn(self, *args)
+        return self._cache[key]
+    wrapper.__doc__, wrapper.__name__ = fn.__doc__, fn.__name__
+    return wrapper
+
+
 def _bytes(name):
     return name.encode('utf-8', 'surrogateescape') if isinstance(name, str) else bytes(name)
 
@@ -241,11 +251,6 @@ class Elf:
 
     def _unpack(self, fmt, off, what):
         return struct.unpack('<' + fmt, self._slice(off, struct.calcsize('<' + fmt), what))
-
-    def _memo(self, key, fn):
-        if key not in self._cache:
-            self._cache[key] = fn()
-        return self._cache[key]
 
     def _parse_header(self):
         d = self.data
@@ -374,14 +379,11 @@ class Elf:
             vaddr += len(chunk)
 
     # ----------------------------------------------------------------------- dynamic
+    @_memo
     def dynamic(self):
         """[(tag, value)] up to (excluding) the first DT_NULL; PT_DYNAMIC first, else .dynamic."""
-        return self._memo('dynamic', self._dynamic)
-
-    def _dynamic(self):
-        raw = None
-        for p in self.segments:
-            if p.p_type == PT_DYNAMIC:
+        for p in self.segments:      # (a debug-only file keeps the header but not the contents)
+            if p.p_type == PT_DYNAMIC and p.p_offset + p.p_filesz <= len(self.data):
                 raw = p.data
                 break
         else:
@@ -508,18 +510,22 @@ class Elf:
         dd = self.dynamic_dict()
         if DT_HASH in dd:
             return self.sysv_hash().nchain
+        n = 1
         if DT_GNU_HASH in dd:
             g = self.gnu_hash()
-            return g.symoffset + len(g.chains)
-        return 1
+            n = g.symoffset + len(g.chains)
+        # DT_GNU_HASH does not cover trailing unhashed (undefined) symbols when nothing at all is
+        # hashed; the dynamic relocations are the only other reference to them.
+        rel = self.dyn_relocs()
+        return max([n] + [r[2] + 1 for k in ('rela', 'jmprel', 'rel') for r in rel[k]])
 
     def symbols(self, which='.symtab'):
         """which: '.symtab', '.dynsym' (falls back to DT_SYMTAB without section headers) or a
         Section object of type SHT_SYMTAB / SHT_DYNSYM."""
         sec = self._symtab_section(which)
-        key = ('symbols', sec.index if sec is not None else which)
-        return self._memo(key, lambda: self._symbols(which))
+        return self._symbols(sec if sec is not None else which)
 
+    @_memo
     def _symbols(self, which):
         raw, strs, sec = self._raw_symbols(which)
         xindex = None
@@ -580,11 +586,9 @@ class Elf:
             raise ElfError('%s address %#x is not file-backed' % (what, dd[addr_tag]))
         return self.data[off:], dd.get(num_tag, 0), self._dynstr
 
+    @_memo
     def verdefs(self):
         """[(index, flags, name, [parent names])]"""
-        return self._memo('verdefs', self._verdefs)
-
-    def _verdefs(self):
         raw, count, getstr = self._ver_region(SHT_GNU_VERDEF, DT_VERDEF, DT_VERDEFNUM, 'verdef')
         out, pos = [], 0
         for _ in range(count):
@@ -610,11 +614,9 @@ class Elf:
             pos += nxt
         return out
 
+    @_memo
     def verneeds(self):
         """[(file, [(index, name, flags)])]"""
-        return self._memo('verneeds', self._verneeds)
-
-    def _verneeds(self):
         raw, count, getstr = self._ver_region(SHT_GNU_VERNEED, DT_VERNEED, DT_VERNEEDNUM,
                                               'verneed')
         out, pos = [], 0
@@ -639,11 +641,9 @@ class Elf:
             pos += nxt
         return out
 
+    @_memo
     def versym(self):
         """Raw u16 per dynamic symbol ([] when the file has no version table)."""
-        return self._memo('versym', self._versym)
-
-    def _versym(self):
         s = self._sec_of_type(SHT_GNU_VERSYM)
         if s is not None:
             raw = s.data
@@ -667,12 +667,10 @@ class Elf:
         return d
 
     # ----------------------------------------------------------------------- relocations
+    @_memo
     def relocations(self):
         """Every SHT_RELA / SHT_REL (addend None) / SHT_CREL section, in section order. sym_name
         is the section's name for an unnamed STT_SECTION symbol."""
-        return self._memo('relocations', self._relocations)
-
-    def _relocations(self):
         out = []
         symcache = {}
         for s in self.sections:
@@ -731,10 +729,8 @@ class Elf:
             raise ElfError('%s at %#x is not file-backed' % (what, vaddr))
         return list(struct.unpack('<%dI' % n, self._slice(off, 4 * n, what)))
 
+    @_memo
     def gnu_hash(self):
-        return self._memo('gnu_hash', self._gnu_hash)
-
-    def _gnu_hash(self):
         dd = self.dynamic_dict()
         if DT_GNU_HASH not in dd:
             return None
@@ -758,10 +754,8 @@ class Elf:
                 chains += self._u32s(cbase + 4 * len(chains), 1, 'DT_GNU_HASH chains')
         return GnuHash(nbuckets, symoffset, bloom_size, bloom_shift, bloom, buckets, chains)
 
+    @_memo
     def sysv_hash(self):
-        return self._memo('sysv_hash', self._sysv_hash)
-
-    def _sysv_hash(self):
         dd = self.dynamic_dict()
         if DT_HASH not in dd:
             return None
@@ -837,12 +831,10 @@ class Elf:
         return None
 
     # ----------------------------------------------------------------------- notes
+    @_memo
     def notes(self):
         """[(section name or 'PT_NOTE#<i>', owner, type, desc)]; sections if there are any
         SHT_NOTE sections, otherwise the PT_NOTE segments."""
-        return self._memo('notes', self._notes)
-
-    def _notes(self):
         regions = [(s.name, s.data, s.sh_addralign) for s in self.sections
                    if s.sh_type == SHT_NOTE]
         if not regions:
@@ -940,11 +932,9 @@ class Elf:
                 return hdr.eh_frame_ptr, self.read_vaddr(hdr.eh_frame_ptr, n)
         raise ElfError('eh_frame_ptr %#x is not file-backed' % hdr.eh_frame_ptr)
 
+    @_memo
     def eh_frame(self):
         """CIE and FDE records of .eh_frame in file order, up to the zero terminator."""
-        return self._memo('eh_frame', self._eh_frame)
-
-    def _eh_frame(self):
         region = self._eh_frame_region()
         if region is None:
             return []
@@ -1036,11 +1026,9 @@ class Elf:
         return CIE(start, base + start, version, aug, code_align, data_align, ra_reg, fde_enc,
                    lsda_enc, pers, end - start, buf[pos:end], pers_enc)
 
+    @_memo
     def eh_frame_hdr(self):
         """EhFrameHdr(version, eh_frame_ptr, fde_count, table=[(initial_loc, fde_addr)]) or None."""
-        return self._memo('eh_frame_hdr', self._eh_frame_hdr)
-
-    def _eh_frame_hdr(self):
         s = self.section('.eh_frame_hdr')
         if s is not None:
             base, buf = s.sh_addr, s.data
